@@ -88,7 +88,7 @@ impl<M: RawMutex + 'static> Sys<M> {
     fn invariants(&mut self, out: &mut StepOut) {
         let (na, nf) = harness::take_alloc_counts();
         if na + nf > 0 {
-            out.v("C18", "alloc-in-call", format!("{} allocations / {} frees inside library calls of this step", na, nf));
+            out.p("C18", "alloc-in-call", format!("{} allocations / {} frees inside library calls of this step", na, nf));
         }
         let snap = self.mutex.verif_snapshot();
         let live = self.live_nodes();
@@ -98,7 +98,7 @@ impl<M: RawMutex + 'static> Sys<M> {
         for (i, s) in self.slots.iter().enumerate() {
             if let Some(s) = s {
                 if s.fut.is_alive() && s.fut.get().is_terminated() != s.meta.done {
-                    out.v("C17", "is-terminated", format!("slot {}: is_terminated()={} but completed={}", i, s.fut.get().is_terminated(), s.meta.done));
+                    out.p("C17", "is-terminated", format!("slot {}: is_terminated()={} but completed={}", i, s.fut.get().is_terminated(), s.meta.done));
                 }
             }
         }
@@ -112,9 +112,9 @@ impl<M: RawMutex + 'static> Sys<M> {
         if self.guards.is_empty() && !order.is_empty() {
             let metas: Vec<bool> = order.iter().map(|&j| fresh(G, j, &self.slots[j].as_ref().unwrap().meta)).collect();
             if !metas.iter().any(|&f| f) {
-                out.v("C03", "lost-wakeup", format!("mutex is free, lock futures {:?} are pending, none of them has been woken through the waker of its latest poll", order));
+                out.p("C03", "lost-wakeup", format!("mutex is free, lock futures {:?} are pending, none of them has been woken through the waker of its latest poll", order));
             } else if self.fair && !metas[0] {
-                out.v("C03", "fair-oldest-not-woken", format!("fair mutex is free, the longest-waiting pending future (slot {}) has not been woken (woken: {:?} of {:?})", order[0], metas, order));
+                out.p("C03", "fair-oldest-not-woken", format!("fair mutex is free, the longest-waiting pending future (slot {}) has not been woken (woken: {:?} of {:?})", order[0], metas, order));
             }
         }
     }
